@@ -65,7 +65,8 @@ B53   == XPlus("i", 1, 53, 0)         \* 2^53, 2^53 + 1 and 2^53 + 2 ... : 2^53 
 B53p1 == XPlus("i", 1, 53, 1)
 B53f  == XPlus("f", 1, 53, 0)
 BigInts == {XOnes("i", 1, 53), B53, B53p1, XPlus("i", 1, 53, 2), XPlus("i", 1, 53, 3), XPlus("i", 1, 54, 2), XPlus("i", 1, 31, 0),
-            XPlus("i", -1, 53, 0), XPlus("i", -1, 53, 1), XPlus("i", -1, 53, 2), XPlus("i", 1, 100, 0), XPlus("i", 1, 100, 1)}
+            XPlus("i", -1, 53, 0), XPlus("i", -1, 53, 1), XPlus("i", -1, 53, 2), XPlus("i", 1, 100, 0), XPlus("i", 1, 100, 1),
+            VX("i", 1, 1023, [j \in 1..54 |-> 1]), XPlus("i", 1, 1024, 0), XPlus("i", 1, 1100, 1), XPlus("i", -1, 1100, 1)}     \* the last four: no double holds them
 BigFlts == {XOnes("f", 1, 53), B53f, XPlus("f", 1, 53, 2), XPlus("f", 1, 53, 4), XPlus("f", -1, 53, 0), XPlus("f", -1, 53, 2),
             XPlus("f", 1, 100, 0), XPlus("f", 1, 1000, 0), XPlus("f", 1, -1000, 0), XPlus("f", -1, -1000, 0), XPlus("f", 1, 31, 0),
             XPlus("f", 1, -1074, 0), XPlus("f", -1, 1023, 0)}
@@ -74,18 +75,21 @@ BigContainers == {VTup(<<B53>>), VTup(<<B53p1>>), VTup(<<B53f>>), VLst(<<B53p1>>
 UX == BigInts \cup BigFlts \cup BigContainers \cup
       {None, VBool(TRUE), VInt(0), VInt(1), VInt(-1), VFlt(5, 2), VFlt(-1, 2), VNaN(1), VNaN(2), VInf(1), VInf(-1), VStr("a"), VTup(<<VInt(1)>>)}
 IsLaw == Mode = "big" /\ done /\ x.kind = "law"
-TransBad(F(_, _), a, b, c) == F(a, b) <= 0 /\ F(b, c) <= 0 /\ ~(F(a, c) <= 0 /\ ((F(a, b) < 0 \/ F(b, c) < 0) => F(a, c) < 0))
-BigAntisym    == IsLaw => C(x.u, x.v) = -C(x.v, x.u)
-BigReflexive  == IsLaw => C(x.u, x.u) = 0
-BigTransitive == IsLaw => \A z \in UX : ~TransBad(CmpModelX, x.u, x.v, z)
-BigPinnedOK   == IsLaw => (PinnedBig(x.u, x.v) => C(x.u, x.v) \in AllowedBig(x.u, x.v))
-BigSmallPinnedOK == IsLaw => (Pinned(x.u, x.v) => C(x.u, x.v) = PinnedValue(x.u, x.v))
+TransBad(F(_, _), a, b, c) == LET ab == F(a, b) IN ab <= 0 /\ LET bc == F(b, c) IN bc <= 0 /\ LET ac == F(a, c) IN ~(ac <= 0 /\ ((ab < 0 \/ bc < 0) => ac < 0))
+\* both lawful mechanisms: through the doubles (the code) and exact
+Lawful(F(_, _)) == /\ F(x.u, x.v) = -F(x.v, x.u) /\ F(x.u, x.u) = 0
+                   /\ \A z \in UX : ~TransBad(F, x.u, x.v, z)
+                   /\ (PinnedBig(x.u, x.v) => F(x.u, x.v) \in AllowedBig(x.u, x.v))
+                   /\ (Pinned(x.u, x.v) => F(x.u, x.v) = PinnedValue(x.u, x.v))
+BigLawsDouble == IsLaw => Lawful(CmpModelX)
+BigLawsExact  == IsLaw => Lawful(CmpModelExact)
 BigWellFormed == IsLaw => XAllWellFormed(x.u)
 \* the mechanism ties ints exactly when they round to one double, so CoarseTie is used and is not empty
 BigCoarseTieUsed == (IsLaw /\ x.u = B53 /\ x.v = B53p1) => (C(x.u, x.v) = 0 /\ ExactCmp(x.u, x.v) = -1)
 \* the exact-int fast path passes every pairwise clause and is rejected by transitivity alone
 BigFastPathRejected == (IsLaw /\ x.u = B53p1 /\ x.v = B53f) =>
                           /\ \E z \in UX : TransBad(CmpModelFast, x.u, x.v, z)
+                          /\ CmpModelExact(B53, B53p1) = -1
                           /\ \A a \in BigInts \cup BigFlts, b \in BigInts \cup BigFlts :
                                 CmpModelFast(a, b) = -CmpModelFast(b, a) /\ CmpModelFast(a, b) \in AllowedBig(a, b)
 SortBigU == {None, VInt(1), VFlt(5, 2), VNaN(1), VStr("a"), B53, B53p1, XPlus("i", 1, 53, 2), B53f, XPlus("f", 1, 53, 2),
